@@ -9,6 +9,8 @@ pub mod hostile;
 #[cfg(feature = "hooks")]
 pub mod matcher;
 #[cfg(feature = "hooks")]
+pub mod mem;
+#[cfg(feature = "hooks")]
 pub mod replay;
 #[cfg(feature = "hooks")]
 pub mod reuse;
@@ -33,6 +35,8 @@ pub fn dispatch(engine: &str, opts: &Opts) -> Option<Run> {
         "spec" => Some(spec::run(opts)),
         #[cfg(feature = "hooks")]
         "dec" => Some(dec::run(opts)),
+        #[cfg(feature = "hooks")]
+        "mem" => Some(mem::run(opts)),
         #[cfg(feature = "hooks")]
         "replay" => Some(replay::run(opts)),
         #[cfg(feature = "hooks")]
